@@ -721,6 +721,17 @@ def obs_diff(m, r):
 LOOSE_ERR = {'RecursionError'}
 
 
+def dangling(snap):
+    """a live object references an object that is deleted"""
+    objs = snap['objs']
+    dead = {i for i, o in enumerate(objs) if o['status'] in DEL}
+    for o in objs:
+        if o['status'] in DEL: continue
+        for c in o['colls'].values():
+            if c and dead.intersection(c['items']): return True
+    return False
+
+
 def real_wf(snap):
     """the hypothesis WF of the theorems evaluated on the real objects: `_save_pos_` and objects_to_save agree; the unique
     and composite indexes hold exactly the current values of live objects (the latter is the invariant of property C11)"""
@@ -750,14 +761,26 @@ def tie_phase(ctx, batch):
             merr = m['err']
             if merr in ('NoSuchObject', 'NoSuchAttr'):
                 ctx.divergence('model rejected a call the engine generated', hist, model=merr, impl=err); break
+            multi = ops[i]['k'] in ('delete', 'setm', 'create') or len(ops[i].get('items', [])) > 1 or len((ops[i].get('v') or {}).get('coll', [])) > 1
+            prev_snap = real[i - 1][1] if i else None
+            if err == 'AssertionError' and merr != err and prev_snap is not None and dangling(prev_snap):
+                # a deleted object was passed as a value earlier (Pony accepts it when the reverse side is a Set); flush dropped its SetData,
+                # which the model does not track for deleted objects: outside the model, the oracle has checked the call
+                ctx.count('tie:internal-assert-on-a-reference-to-a-deleted-object'); break
             if (merr is None) != (err is None):
                 if merr in LOOSE_ERR or err in LOOSE_ERR: ctx.count('tie:cascade-cycle-outcome-differs'); break
+                if ops[i]['k'] == 'delete' and m['trail'] >= 2:
+                    # whether a cascade reaches a refusing object before or after that object was deleted through another path depends
+                    # on Python's set iteration order (the real outcome varies from run to run); the model iterates in ascending id order
+                    ctx.count('tie:cascade-outcome-depends-on-set-order'); break
                 ctx.divergence('outcome of the call differs', hist, model=merr, impl=err); break
             if merr != err:
-                multi = ops[i]['k'] in ('delete', 'setm', 'create') or len(ops[i].get('items', [])) > 1 or len((ops[i].get('v') or {}).get('coll', [])) > 1
                 if multi or merr in LOOSE_ERR or err in LOOSE_ERR: ctx.count('tie:error-class-differs-in-multi-step-call:%s/%s' % (merr, err))
                 else: ctx.divergence('error class of the call differs', hist, model=merr, impl=err); break
             d = obs_diff(norm_model(m['obs']), norm_real(snap))
+            if d is not None and d[0] == 'modified' and err is not None and multi:
+                # cache.modified is never restored: after a failed multi-step call its value depends on how far the call got (set order)
+                ctx.count('tie:cache.modified-after-failed-call-depends-on-set-order'); break
             if d is not None:
                 ctx.divergence('observation after the call differs: ' + d[0], hist, model=d[1], impl=d[2]); break
             if not m.get('wf', True):
